@@ -1290,6 +1290,12 @@ def build_operator_operand_fixup(capture_error_state):
                 right_op = str(right_op)
 
         else:
+            if any(isinstance(operand, str) and operand.upper() in ('TRUE', 'FALSE')
+                   for operand in (left_op, right_op)):
+                # the text "TRUE" is not a number for an operator, only the logical is
+                capture_error_state(True, f'Values: {left_op} {op} {right_op}')
+                return VALUE_ERROR
+
             left_op = coerce_to_number(left_op, convert_all=True)
             right_op = coerce_to_number(right_op, convert_all=True)
 
